@@ -149,7 +149,9 @@ func Load(repoDir, goos, goarch string) (*World, error) {
 			for k := range keys {
 				if !known[k] {
 					needInline = true
-					break
+					if !strings.Contains(k, "/var:") && !strings.Contains(k, ":type:") {
+						NewFuncKeys[displayName(k, keys[k])] = true
+					}
 				}
 			}
 		}
